@@ -657,6 +657,79 @@ def rule_w8(repo):
     need(n_found, 'get_priority_pair: no atom rating behind is_number() found')
     return res
 
+def rule_w9(repo):
+    """Parsing ends with type inference, which takes the type a constant was *given* as fixed.  A constant built with an explicit type
+    (`Const("collect", TFun(TFun(T, BoolType), setT(T)))`, or through a helper that is handed the name) has to be built at an instance of
+    the type the library declares for it, whatever the type parameter T is.  (T => bool) => bool is an instance of the declared type of
+    all / exists / exists1, but not of The and Some, which are ('a => bool) => 'a: `THE x::nat. ..` then no longer parses to the term that
+    was printed.  Every such construction in syntax/parser.py and in the term-building modules data/*.py, logic/logic.py is unified
+    with the declaration, the parameters of the building function taken as arbitrary but fixed types."""
+    res = RuleResult('C07.W9', 'a constant built with an explicit type is built at an instance of its declared type', floor=10)
+    sig = ht.Signature(repo.root)
+    BASE = {'BoolType': 'bool', 'NatType': 'nat', 'IntType': 'int', 'RealType': 'real', 'boolT': 'bool', 'natT': 'nat', 'intT': 'int', 'realT': 'real'}
+
+    def conv(e, params):
+        if isinstance(e, ast.Name):
+            if e.id in BASE:
+                return ('c', BASE[e.id], ())
+            if e.id in params:
+                return ('c', '$' + e.id, ())          # an arbitrary but fixed type
+            return None
+        if isinstance(e, ast.Attribute) and e.attr in BASE:
+            return ('c', BASE[e.attr], ())
+        if isinstance(e, ast.Call):
+            nm = (call_name(e) or '').split('.')[-1]
+            args = [conv(a, params) for a in e.args]
+            if any(a is None for a in args) or e.keywords:
+                return None
+            if nm == 'TFun' and len(args) >= 2:
+                t = args[-1]
+                for a in reversed(args[:-1]):
+                    t = ('c', 'fun', (a, t))
+                return t
+            if nm == 'setT' and len(args) == 1:
+                return ('c', 'set', (args[0],))
+            if nm == 'TConst' and e.args and isinstance(e.args[0], ast.Constant):
+                return ('c', e.args[0].value, tuple(args[1:])) if all(a is not None for a in args[1:]) and conv(e.args[0], params) is None else None
+        return None
+    n = 0
+    for m in repo.source_modules():
+        if not (m.rel == PARSER or m.rel.startswith('data/') or m.rel == 'logic/logic.py') or '/tests/' in m.rel:
+            continue
+        for f in m.all_funcs:
+            params = set(f.params())
+            for c in ast.walk(f.node):
+                if not (isinstance(c, ast.Call) and call_name(c) == 'Const' and len(c.args) == 2 and not (isinstance(c.args[1], ast.Constant) and c.args[1].value is None)):
+                    continue
+                names = []
+                if isinstance(c.args[0], ast.Constant) and isinstance(c.args[0].value, str):
+                    names = [(c.args[0].value, c)]
+                elif isinstance(c.args[0], ast.Name) and c.args[0].id in params and f.parent is None:
+                    # the name is a parameter of the building function: the literal names it is called with (in this module)
+                    i = f.params().index(c.args[0].id)
+                    for g in m.all_funcs:
+                        for cc in ast.walk(g.node):
+                            if isinstance(cc, ast.Call) and (call_name(cc) or '').split('.')[-1] == f.name and len(cc.args) > i and \
+                                    isinstance(cc.args[i], ast.Constant) and isinstance(cc.args[i].value, str):
+                                names.append((cc.args[i].value, cc))
+                built = conv(c.args[1], params - {c.args[0].id if isinstance(c.args[0], ast.Name) else ''})
+                if built is None:
+                    continue
+                for nm, site in names:
+                    decl = sig.general.get(nm)
+                    if decl is None:
+                        continue
+                    n += 1
+                    ok = ht.unify(ht.rename(decl, 'd') if hasattr(ht, 'rename') else decl, built, {})
+                    res.add('%s :: %s :: Const(%s)@%d' % (m.rel, f.qualname, nm, site.lineno - f.node.lineno if site is c else site.lineno), ok,
+                            'an instance of the declared type' if ok else
+                            'line %d builds `%s` at the type `%s`, which is not an instance of its declared type %s for an arbitrary %s: the term that is parsed is not '
+                            'the term that was printed (THE x::nat. P x)' % (site.lineno, nm, src(c.args[1], 60), ht.show(decl) if hasattr(ht, 'show') else decl,
+                                                                          ', '.join(sorted(params & {x.id for x in ast.walk(c.args[1]) if isinstance(x, ast.Name)})) or 'type'),
+                            '%s:%d' % (m.rel, site.lineno))
+    res.info['constructions'] = n
+    return res
+
 
 def rules(repo):
-    return [rule_w1(repo), rule_w2(repo), rule_w3(repo), rule_w4(repo), rule_w5(repo), rule_w6(repo), rule_w7(repo), rule_w8(repo)]
+    return [rule_w1(repo), rule_w2(repo), rule_w3(repo), rule_w4(repo), rule_w5(repo), rule_w6(repo), rule_w7(repo), rule_w8(repo), rule_w9(repo)]
